@@ -56,6 +56,8 @@ def _case(rng, kind, sizes, nrounds=3):
     rounds.append([[c, rng.randint(0, 50)] for c in rng.sample(ids, k)])
   c = {'kind': kind, 'copt': rng.choice(COPTS), 'sopt': rng.choice(SOPTS), 'hp': _hp(rng.choice(HPS), rng.randint(0, 9)),
        'noise': rng.random() < 0.8, 'mu': 0.0, 'slr': 1.0, 'coef': 0.5,
+       # L2 regularizer weight where the algorithm's API takes one (fed_prox does not); 0 = regularizer=None
+       'reg': 0.0 if kind in ('fedprox0', 'fedprox') or rng.random() < 0.4 else rng.choice([0.125, 0.25, 0.5]),
        'init': [rng.randint(-4, 4) / 4 for _ in range(fs.D)], 'pop': pop, 'rounds': rounds}
   if kind == 'fedprox':
     c['mu'] = rng.choice([0.25, 0.5, 1.0])
@@ -80,6 +82,8 @@ def generate(tier, rng):
   for kind in KINDS:
     c = _case(rng, kind, [3, 0, 0, 4])
     c['rounds'] = [[['0', 1], ['1', 2]], [['1', 3], ['2', 4]], [['2', 5], ['3', 6], ['0', 7]]]
+    if kind not in ('fedprox0', 'fedprox'):
+      c['reg'] = 0.25                   # regularised objective
     yield c
     c = _case(rng, kind, [2, 5])        # a round without clients in the middle of a run
     c['rounds'] = [[['0', 1], ['1', 2]], [], [['1', 5], ['0', 7]]]
@@ -128,17 +132,18 @@ def _algo_a(case):
   from fedjax.algorithms import fed_prox, hyp_cluster, mime_lite, mime, apfl
   kind = case['kind']
   pel = fs.per_example_loss(case['noise'])
+  reg = fs.make_regularizer(case.get('reg', 0.0))
   copt, sopt, hp = fs.make_optimizer(case['copt']), fs.make_optimizer(case['sopt']), fs.hparams(case['hp'])
   if kind in ('fedprox0', 'fedprox'):
     return fed_prox.fed_prox(pel, copt, sopt, hp, case['mu'])
   if kind == 'hypcluster':
-    return hyp_cluster.hyp_cluster(pel, copt, sopt, _padded_hp(), hp)
+    return hyp_cluster.hyp_cluster(pel, copt, sopt, _padded_hp(), hp, regularizer=reg)
   if kind in ('mimelite1', 'mimelite_gen'):
-    return mime_lite.mime_lite(pel, copt, hp, _padded_hp(), case['slr'])
+    return mime_lite.mime_lite(pel, copt, hp, _padded_hp(), case['slr'], regularizer=reg)
   if kind in ('mime1', 'mime_gen'):
-    return mime.mime(pel, copt, hp, _padded_hp(), case['slr'])
+    return mime.mime(pel, copt, hp, _padded_hp(), case['slr'], regularizer=reg)
   if kind in ('apfl', 'apfl_noise'):
-    return apfl.adaptive_personalized_federated_learning(fedjax.grad(pel), copt, sopt, hp, case['coef'])
+    return apfl.adaptive_personalized_federated_learning(fedjax.grad(pel, reg), copt, sopt, hp, case['coef'])
   raise ValueError(kind)
 
 
@@ -148,14 +153,15 @@ def _algo_b(case):
   from fedjax.algorithms import fed_avg
   kind = case['kind']
   hp = fs.hparams(case['hp'])
+  reg = fs.make_regularizer(case.get('reg', 0.0))
   if kind in ('fedprox0', 'hypcluster', 'apfl'):
-    return fed_avg.federated_averaging(fedjax.grad(fs.per_example_loss(case['noise'])), fs.make_optimizer(case['copt']),
+    return fed_avg.federated_averaging(fedjax.grad(fs.per_example_loss(case['noise']), reg), fs.make_optimizer(case['copt']),
                                        fs.make_optimizer(case['sopt']), hp)
   if kind == 'fedprox':
     return fed_avg.federated_averaging(fedjax.grad(per_example_loss_aug(case['noise'], case['mu'])),
                                        fs.make_optimizer(case['copt']), fs.make_optimizer(case['sopt']), hp)
   if kind == 'mimelite1':
-    return fed_avg.federated_averaging(fedjax.grad(fs.per_example_loss(case['noise'])), fs.make_optimizer(case['copt']),
+    return fed_avg.federated_averaging(fedjax.grad(fs.per_example_loss(case['noise']), reg), fs.make_optimizer(case['copt']),
                                        fs.make_optimizer(SGD(1.0)), hp)
   return None
 
@@ -180,7 +186,7 @@ def run(case):
   import jax
   import jax.numpy as jnp
   kind = case['kind']
-  cfg = [case[k] for k in ('kind', 'copt', 'sopt', 'hp', 'noise', 'mu', 'slr', 'coef')]
+  cfg = [case[k] for k in ('kind', 'copt', 'sopt', 'hp', 'noise', 'mu', 'slr', 'coef')] + [case.get('reg', 0.0)]
   alg_a = _cached(['a'] + cfg, lambda: _algo_a(case))
   alg_b = _cached(['b'] + cfg, lambda: _algo_b(case))
   cds = {c: fs.client_dataset(d) for c, d in case['pop'].items()}
@@ -233,14 +239,15 @@ def _ref_fedavg_chain(case, obs, prox_mu=None):
   out = []
   for r, rnd in enumerate(case['rounds']):
     members = [(len(case['pop'][c]['y']), case['pop'][c], obs['streams'][c], obs['nus'][r][j]) for j, (c, _) in enumerate(rnd)]
-    mean, _ = fs.ref_mean_delta(p, members, case['copt'], prox_mu)
+    mean, _ = fs.ref_mean_delta(p, members, case['copt'], prox_mu, case.get('reg', 0.0))
     p = srv.apply(mean, p)
     out.append(p.copy())
   return out
 
 
 def _ref_fullbatch_chain(case, obs):
-  """Mime, plain SGD, one local step: p - server_lr * eta * (gradient over all examples of the cohort)."""
+  """Mime, plain SGD, one local step: p - server_lr * eta * (gradient of the training objective over all examples of
+  the cohort) = mean example gradient + the regularizer gradient 2*reg*p, the latter exactly once."""
   p = np.array(case['init'], dtype=np.float64)
   out = []
   for r, rnd in enumerate(case['rounds']):
@@ -249,7 +256,7 @@ def _ref_fullbatch_chain(case, obs):
       for t, idxs in enumerate(obs['gstreams'][c]):
         acc = acc + len(idxs) * fs.ref_grad(p, case['pop'][c], idxs, obs['nus'][r][j][t])
         tot += len(idxs)
-    g = acc / tot if tot > 0 else np.zeros(fs.D)
+    g = acc / tot + 2.0 * case.get('reg', 0.0) * p if tot > 0 else np.zeros(fs.D)
     p = p - case['slr'] * case['copt']['lr'] * g
     out.append(p.copy())
   return out
@@ -314,7 +321,7 @@ def encode(case, obs):
   gstreams = fw.clist([f'({_zid(c)}, {fw.clist([fw.natlist(b) for b in st])})' for c, st in sorted(obs['gstreams'].items())])
   rounds = fw.clist([fw.clist([f'({_zid(c)}, {fw.qlist(nus)})' for (c, _), nus in zip(rnd, obs['nus'][r])])
                      for r, rnd in enumerate(case['rounds'])])
-  cterm = (f'(mkC12 {ALGO_TAG[case["kind"]]} {_sgd(case["copt"])} {_sgd(case["sopt"])} {fw.qlit(case["mu"])} {fw.qlit(case["slr"])} '
+  cterm = (f'(mkC12 {ALGO_TAG[case["kind"]]} {_sgd(case["copt"])} {_sgd(case["sopt"])} {fw.qlit(case["mu"])} {fw.qlit(case.get("reg", 0.0))} {fw.qlit(case["slr"])} '
            f'{fw.qlist(case["init"])} {pop} {streams} {gstreams} {rounds} {fw.qlit(TOL)})')
   oterm = fw.clist([fw.qlist(p) for p in obs['a']])
   return f'({cterm}, {oterm})'
@@ -331,6 +338,7 @@ def describe(case, obs):
           'server_opt': 'sgd' + ('+mom' if case['sopt'].get('mom') else '') + ('+nest' if case['sopt'].get('nest') else ''),
           'batching': f'bs={case["hp"]["bs"]},ep={case["hp"]["epochs"]},st={case["hp"]["steps"]},drop={case["hp"]["drop"]}',
           'empty_rounds': sum(1 for t in tot if t == 0), 'key_dependent_loss': case['noise'],
+          'regularizer': 'none' if not case.get('reg') else 'l2',
           'err': obs['err_a'] or obs['err_b']}
 
 
